@@ -1,1 +1,229 @@
-// harnesses for segment (cfg(kani) only)
+// Harnesses for src/query/segment.rs (cfg(kani) only): C01/C02 (multi-selector segments, descendant segments).
+#![allow(unused_imports, dead_code, unused_mut)]
+use super::*;
+use crate::verif_common::*;
+use core::mem::{forget, MaybeUninit};
+
+// ---- multi-selector segment on ONE input node: selectors contribute in the
+// order written, duplicates kept (RFC 9535 2.5.1.2). Array [0,1,2].
+proof!(c02_selectors_idx_idx, 6, {
+    let mut sc = Scratch::new();
+    sc.elems[0] = Mini::Int(0);
+    sc.elems[1] = Mini::Int(1);
+    sc.elems[2] = Mini::Int(2);
+    let doc = sc.arr(3);
+    let (i, j): (i64, i64) = (kani::any(), kani::any());
+    kani::assume(i >= -4 && i <= 4 && j >= -4 && j <= 4);
+    let mut sels = Pair { a: ms_index(i), b: ms_index(j) };
+    let v = sel_vec(&mut sels, 2);
+    let st = process_selectors(State::root(&doc), &v);
+    let (ei, ej) = (rfc_index(i, 3), rfc_index(j, 3));
+    let mut got = [core::ptr::null::<Mini>(); 8];
+    let n = nodes_of(&st.data, &mut got);
+    let mut k = 0;
+    if let Some(x) = ei {
+        assert!(k < n && core::ptr::eq(got[k], &sc.elems[x]), "first selector's node must come first");
+        k += 1;
+    }
+    if let Some(y) = ej {
+        assert!(k < n && core::ptr::eq(got[k], &sc.elems[y]), "second selector's node must follow (duplicates kept)");
+        k += 1;
+    }
+    assert!(n == k, "multi-selector segment returned extra nodes");
+    kani::cover!(ei.is_some() && ei == ej, "same element selected twice");
+    kani::cover!(ei.is_some() && ej.is_none(), "second selector selects nothing");
+    kani::cover!(ei.is_none() && ej.is_some(), "first selector selects nothing");
+    forget(st);
+    forget(v);
+    forget(sc);
+});
+
+// [slice, index] and [index, slice] on one node: a multi-node contribution next to a single one
+macro_rules! c02_selectors_slice_idx {
+    ($name:ident, $slice_first:expr) => {
+        proof!($name, 6, {
+            let mut sc = Scratch::new();
+            sc.elems[0] = Mini::Int(0);
+            sc.elems[1] = Mini::Int(1);
+            sc.elems[2] = Mini::Int(2);
+            let doc = sc.arr(3);
+            let j: i64 = kani::any();
+            kani::assume(j >= -4 && j <= 4);
+            let (s, e): (i64, i64) = (kani::any(), kani::any());
+            kani::assume(s >= 0 && s <= 3 && e >= 0 && e <= 3);
+            let mut sels1 = Pair { a: ms_slice(Some(s), Some(e), None), b: ms_index(j) };
+            let mut sels2 = Pair { a: ms_index(j), b: ms_slice(Some(s), Some(e), None) };
+            let v = if $slice_first { sel_vec(&mut sels1, 2) } else { sel_vec(&mut sels2, 2) };
+            let st = process_selectors(State::root(&doc), &v);
+            let mut exp = [0usize; 8];
+            let mut ne = 0;
+            if !$slice_first {
+                if let Some(y) = rfc_index(j, 3) {
+                    exp[ne] = y;
+                    ne += 1;
+                }
+            }
+            let mut x = s;
+            while x < e {
+                exp[ne] = x as usize;
+                ne += 1;
+                x += 1;
+            }
+            if $slice_first {
+                if let Some(y) = rfc_index(j, 3) {
+                    exp[ne] = y;
+                    ne += 1;
+                }
+            }
+            let mut got = [core::ptr::null::<Mini>(); 8];
+            let n = nodes_of(&st.data, &mut got);
+            assert!(n == ne, "multi-selector segment: wrong number of nodes");
+            let mut k = 0;
+            while k < ne {
+                assert!(core::ptr::eq(got[k], &sc.elems[exp[k]]), "multi-selector segment: selectors must contribute in the order written");
+                k += 1;
+            }
+            kani::cover!(ne == 4, "three from the slice plus one from the index");
+            kani::cover!(ne == 1, "only one selector contributes");
+            forget(st);
+            forget(v);
+            forget(sc);
+            forget(sels1);
+            forget(sels2);
+        });
+    };
+}
+c02_selectors_slice_idx!(c02_selectors_slice_idx, true);
+c02_selectors_slice_idx!(c02_selectors_idx_slice, false);
+
+// ---- multi-selector segment on TWO input nodes (role B, finding F2): RFC order is
+// node-major: a0[i], a0[j], a1[i], a1[j].
+proof!(c02_roleb_selectors_two_inputs, 6, {
+    let (mut s0, mut s1) = (Scratch::new(), Scratch::new());
+    s0.elems[0] = Mini::Int(0);
+    s0.elems[1] = Mini::Int(1);
+    s1.elems[0] = Mini::Int(2);
+    s1.elems[1] = Mini::Int(3);
+    let docs = [s0.arr(2), s1.arr(2), Mini::Null, Mini::Null];
+    let root = Mini::Null;
+    let mut b: [MaybeUninit<Pointer<Mini>>; 4] = [MaybeUninit::uninit(), MaybeUninit::uninit(), MaybeUninit::uninit(), MaybeUninit::uninit()];
+    let input = State::data(&root, refs_of(&docs, &mut b, 2));
+    let mut sels = Pair { a: ms_index(0), b: ms_index(1) };
+    let v = sel_vec(&mut sels, 2);
+    let st = process_selectors(input, &v);
+    let mut got = [core::ptr::null::<Mini>(); 8];
+    let n = nodes_of(&st.data, &mut got);
+    assert!(n == 4, "two selectors on two arrays of two must give four nodes");
+    assert!(core::ptr::eq(got[0], &s0.elems[0]) && core::ptr::eq(got[1], &s0.elems[1]) && core::ptr::eq(got[2], &s1.elems[0]) && core::ptr::eq(got[3], &s1.elems[1]),
+        "everything produced from an earlier input node must precede everything from a later one");
+    forget(st);
+    forget(v);
+    forget(s0);
+    forget(s1);
+});
+
+// ---- descendant segment: pre-order (node before its descendants, children in
+// container order) expansion, then the selector. Concrete tree shapes.
+// tree A: [[x, y], z]   tree B: {"a": [x], "b": {"c": y}}
+proof!(c02_descendant_tree_a, 4, {
+    let (mut s_in, mut s_out) = (Scratch::new(), Scratch::new());
+    s_in.elems[0] = Mini::Int(kani::any());
+    s_in.elems[1] = Mini::Null;
+    s_out.elems[0] = s_in.arr_c(2);
+    s_out.elems[1] = Mini::Bool(kani::any());
+    let doc = s_out.arr_c(2);
+    let d = process_descendant(root_ptr(&doc));
+    let mut got = [core::ptr::null::<Mini>(); 8];
+    let n = nodes_of(&d, &mut got);
+    // descendants-or-self that are containers, pre-order: doc, doc[0]
+    assert!(n == 2, "descendant expansion of [[x,y],z] must visit exactly the two containers");
+    assert!(core::ptr::eq(got[0], &doc) && core::ptr::eq(got[1], &s_out.elems[0]), "a node must be visited before its descendants");
+    kani::cover!(true, "end reached");
+    forget(d);
+    forget(s_in);
+    forget(s_out);
+});
+proof!(c02_descendant_wildcard_tree_a, 4, {
+    // $..[*] on [[x, y], z] = doc[0], doc[1], doc[0][0], doc[0][1]
+    let (mut s_in, mut s_out) = (Scratch::new(), Scratch::new());
+    s_in.elems[0] = Mini::Int(kani::any());
+    s_in.elems[1] = Mini::Null;
+    s_out.elems[0] = s_in.arr_c(2);
+    s_out.elems[1] = Mini::Bool(kani::any());
+    let doc = s_out.arr_c(2);
+    let mut w = m_wild();
+    let seg = m_desc(&mut w);
+    let st = as_seg(&seg).process(State::root(&doc));
+    let mut got = [core::ptr::null::<Mini>(); 8];
+    let n = nodes_of(&st.data, &mut got);
+    assert!(n == 4, "$..[*] on [[x,y],z] must select four nodes");
+    assert!(core::ptr::eq(got[0], &s_out.elems[0]) && core::ptr::eq(got[1], &s_out.elems[1]) && core::ptr::eq(got[2], &s_in.elems[0]) && core::ptr::eq(got[3], &s_in.elems[1]),
+        "$..[*]: children of an earlier visited node precede those of a later one, in container order");
+    kani::cover!(true, "end reached");
+    forget(st);
+    forget(seg);
+    forget(s_in);
+    forget(s_out);
+});
+proof!(c02_descendant_index_tree_c, 8, {
+    // $..[i] on [[a, b], [c]]: visited containers in pre-order: doc, doc[0], doc[1]
+    let (mut s0, mut s1, mut s_out) = (Scratch::new(), Scratch::new(), Scratch::new());
+    s0.elems[0] = Mini::Int(kani::any());
+    s0.elems[1] = Mini::Null;
+    s1.elems[0] = Mini::Bool(kani::any());
+    s_out.elems[0] = s0.arr_c(2);
+    s_out.elems[1] = s1.arr_c(1);
+    let doc = s_out.arr_c(2);
+    let i: i64 = kani::any();
+    kani::assume(i >= -3 && i <= 2);
+    let mut ix = m_index(i);
+    let seg = m_desc(&mut ix);
+    let st = as_seg(&seg).process(State::root(&doc));
+    let mut got = [core::ptr::null::<Mini>(); 8];
+    let n = nodes_of(&st.data, &mut got);
+    let mut k = 0;
+    if let Some(x) = rfc_index(i, 2) {
+        assert!(k < n && core::ptr::eq(got[k], &s_out.elems[x]), "$..[i]: the root array's element comes first");
+        k += 1;
+    }
+    if let Some(x) = rfc_index(i, 2) {
+        assert!(k < n && core::ptr::eq(got[k], &s0.elems[x]), "$..[i]: then the first nested array's element");
+        k += 1;
+    }
+    if let Some(x) = rfc_index(i, 1) {
+        assert!(k < n && core::ptr::eq(got[k], &s1.elems[x]), "$..[i]: then the second nested array's element");
+        k += 1;
+    }
+    assert!(n == k, "$..[i] returned extra nodes");
+    kani::cover!(n == 3, "all three arrays contribute");
+    kani::cover!(n == 2, "only the longer arrays contribute");
+    kani::cover!(n == 0, "index out of range everywhere");
+    forget(st);
+    forget(seg);
+    forget(s0);
+    forget(s1);
+    forget(s_out);
+});
+proof!(c02_descendant_tree_b, 8, {
+    // {"a": [x], "b": {"c": y}}: containers in pre-order: doc, doc.a, doc.b
+    let (mut sa, mut sb, mut so) = (Scratch::new(), Scratch::new(), Scratch::new());
+    sa.elems[0] = Mini::Int(kani::any());
+    sb.set(0, "c", Mini::Null);
+    so.set(0, "a", sa.arr_c(1));
+    so.set(1, "b", sb.obj(1));
+    let doc = so.obj(2);
+    let mut w = m_wild();
+    let seg = m_desc(&mut w);
+    let st = as_seg(&seg).process(State::root(&doc));
+    let mut got = [core::ptr::null::<Mini>(); 8];
+    let n = nodes_of(&st.data, &mut got);
+    assert!(n == 4, "$..* on {a:[x], b:{c:y}} must select four nodes");
+    assert!(core::ptr::eq(got[0], &so.o.vals[0]) && core::ptr::eq(got[1], &so.o.vals[1]) && core::ptr::eq(got[2], &sa.elems[0]) && core::ptr::eq(got[3], &sb.o.vals[0]),
+        "$..*: members in document order, a node's children before later nodes' children");
+    kani::cover!(true, "end reached");
+    forget(st);
+    forget(seg);
+    forget(sa);
+    forget(sb);
+    forget(so);
+});
